@@ -67,7 +67,14 @@ def iv_of(kind, n):
     return {'zero': b'\0' * n, 'ramp': ramp(n, 17, 200), 'ff': b'\xff' * n}[kind]
 
 
-def msg(n, d):
+def msg(n, d, blocklen=None):
+    if d == 2:
+        # a message whose tail collides with its own padding: the last bytes equal the pad length / the pad marker
+        q = blocklen - n % blocklen
+        m = bytearray(expander(n, 5))
+        for i in range(1, min(n, 3) + 1):
+            m[-i] = q & 255
+        return bytes(m)
     return ramp(n, 31, 5) if d == 0 else expander(n, 4)
 
 
@@ -121,8 +128,8 @@ def run_ecbcbc(ctx, pt):
             continue
         if pad == 'zero' and L == 0:
             continue
-        for d in (0, 1) if cid.startswith('stub') else (0,):
-            M = msg(L, d)
+        for d in (0, 1, 2) if cid.startswith('stub') else (0, 2):
+            M = msg(L, d, n)
             padded = PS.pad_spec(pad, 8 * n, M)[0]
             ivs = ('zero', 'ramp') if mode == 'CBC' else (None,)
             for ivk in ivs:
@@ -255,7 +262,7 @@ def run_nist(ctx, which):
 def subchecks():
     return [
         Sub('ecb-cbc', pts_ecbcbc, run_ecbcbc, engine='P', chunk=1,
-            bound='mode in {ECB,CBC} x padding in {PKCS#7, X9.23, ISO 7816-4, zero (enc only), none (whole blocks)} x stub cipher of block size 8,16,24,64,128,256,512,1024 bits with every |M| in 0..4 blocks+1 and 2 data patterns, and every real cipher (9) with every |M| in 0..blocklen+1 and k blocks +{0,1,blen-1}, k<=3; IV in {zero, ramp}; enc == SP800-38A(pad_spec(M)), dec(enc(M)) == M with a fresh object, dec(spec ciphertext) == M'),
+            bound='mode in {ECB,CBC} x padding in {PKCS#7, X9.23, ISO 7816-4, zero (enc only), none (whole blocks)} x stub cipher of block size 8,16,24,64,128,256,512,1024 bits with every |M| in 0..4 blocks+1 and 3 data patterns (one whose tail equals its own pad byte), and every real cipher (9) with every |M| in 0..blocklen+1 and k blocks +{0,1,blen-1}, k<=3; IV in {zero, ramp}; enc == SP800-38A(pad_spec(M)), dec(enc(M)) == M with a fresh object, dec(spec ciphertext) == M'),
         Sub('ctr', pts_ctr, run_ctr, engine='P', chunk=1,
             bound='stub block sizes 16..1024 bits and 9 real ciphers; nonce half in {zero, ramp}; counter half in {0,1,2^h-2,2^h-1,0x0102..}; counter given as bytes and as a DefaultCounter set up by hand; |M| as above (<=3 blocks+1 for large blocks)'),
         Sub('cts', pts_cts, run_cts, engine='P', chunk=1,
